@@ -3,6 +3,7 @@ package compose
 import (
 	"context"
 
+	"github.com/cloudwego/eino/components/model"
 	"github.com/cloudwego/eino/schema"
 )
 
@@ -232,15 +233,27 @@ func VerifC16Callbacks() {
 	r, err := g.Compile(ctx, WithGraphName("TOP"))
 	vassert(err == nil, "graph compiles")
 	d := vchoose("where", 4)
-	target := []string{"L1", "G", "L2", "M2"}[d]
-	path := [][]string{{"L1"}, {"G"}, {"G", "L2"}, {"G", "M2"}}[d]
-	opt := WithCallbacks(&c10Rec{id: "h", evs: &evs}).DesignateNodeWithPath(NewNodePath(path...))
+	targets := []string{"L1", "G", "L2", "M2"}
+	paths := [][]string{{"L1"}, {"G"}, {"G", "L2"}, {"G", "M2"}}
+	target := targets[d]
+	opt := WithCallbacks(&c10Rec{id: "h", evs: &evs}).DesignateNodeWithPath(NewNodePath(paths[d]...))
+	// optionally a second path on the same option, listed after the first
+	d2 := vchoose("second", 5) - 1
+	if d2 == d || (d2 >= 0 && (d == 1 || d2 == 1)) {
+		return
+	}
+	if d2 >= 0 {
+		opt = opt.DesignateNodeWithPath(NewNodePath(paths[d2]...))
+	}
 	_, rerr := r.Invoke(ctx, map[string]any{"in": vsymInt("x")}, opt)
 	vassert(rerr == nil, "run succeeds")
 	vassert(c10Count(evs, "h", "start", target) == 1 && c10Count(evs, "h", "end", target) == 1, "callback designated to "+target+" fires once there")
+	if d2 >= 0 {
+		vassert(c10Count(evs, "h", "start", targets[d2]) == 1 && c10Count(evs, "h", "end", targets[d2]) == 1, "callback designated to a second path ("+targets[d2]+") fires once there as well, whatever the order of the paths")
+	}
 	for _, e := range evs {
 		if d != 1 {
-			vassert(e.name == target, "callback designated to "+target+" applies only there (got "+e.name+")")
+			vassert(e.name == target || (d2 >= 0 && e.name == targets[d2]), "callback designated to "+target+" applies only there (got "+e.name+")")
 		}
 	}
 }
@@ -382,4 +395,99 @@ func VerifC16CallbackUnknown() {
 	} else {
 		vassert(rerr != nil, "a callback designated to an unknown node (also below a nested graph, or next to a valid key) is an error")
 	}
+}
+
+// Component options (chat-model options) on a graph with two chat-model nodes and a lambda: an undesignated option
+// reaches every chat model and nothing else; designated options derived from ONE base option (both derived before
+// either is used) reach exactly their own node, in one call or in separate calls.
+type c16Model struct {
+	key string
+	rec *[]c16Recv
+}
+
+func (m *c16Model) note(opts []model.Option) {
+	o := model.GetCommonOptions(&model.Options{}, opts...)
+	if o.MaxTokens != nil {
+		*m.rec = append(*m.rec, c16Recv{m.key, 0, *o.MaxTokens})
+	}
+}
+func (m *c16Model) Generate(ctx context.Context, in []*schema.Message, opts ...model.Option) (*schema.Message, error) {
+	m.note(opts)
+	return &schema.Message{Role: schema.Assistant, Content: m.key}, nil
+}
+func (m *c16Model) Stream(ctx context.Context, in []*schema.Message, opts ...model.Option) (*schema.StreamReader[*schema.Message], error) {
+	m.note(opts)
+	return schema.StreamReaderFromArray([]*schema.Message{{Role: schema.Assistant, Content: m.key}}), nil
+}
+func (m *c16Model) BindTools(tools []*schema.ToolInfo) error { return nil }
+
+func VerifC16ComponentOptions() {
+	ctx := context.Background()
+	vcfg("fifo", 1)
+	vcfgAppendCapIn("extractOption")
+	var rec []c16Recv
+	lamSeen := 0
+	g := NewGraph[[]*schema.Message, *schema.Message]()
+	_ = g.AddChatModelNode("ma", &c16Model{"ma", &rec})
+	_ = g.AddLambdaNode("conv", InvokableLambdaWithOption(func(ctx context.Context, in *schema.Message, opts ...c16OptA) ([]*schema.Message, error) {
+		lamSeen += len(opts)
+		return []*schema.Message{in}, nil
+	}))
+	_ = g.AddChatModelNode("mb", &c16Model{"mb", &rec})
+	_ = g.AddEdge(START, "ma")
+	_ = g.AddEdge("ma", "conv")
+	_ = g.AddEdge("conv", "mb")
+	_ = g.AddEdge("mb", END)
+	r, err := g.Compile(ctx)
+	vassert(err == nil, "graph compiles")
+	v := vrange("tokens", 1, 9)
+	base := WithChatModelOption(model.WithMaxTokens(v))
+	forA := base.DesignateNode("ma")
+	forB := base.DesignateNode("mb")
+	var opts []Option
+	wantA, wantB := 0, 0
+	switch vchoose("use", 5) {
+	case 0:
+		opts = []Option{base}
+		wantA, wantB = 1, 1
+	case 1:
+		opts = []Option{forA}
+		wantA = 1
+	case 2:
+		opts = []Option{forB}
+		wantB = 1
+	case 3:
+		opts = []Option{forA, forB}
+		wantA, wantB = 1, 1
+	case 4:
+		opts = []Option{forB, forA}
+		wantA, wantB = 1, 1
+	}
+	var rerr error
+	if vchoose("stream", 2) == 1 {
+		sr, e := r.Stream(ctx, []*schema.Message{schema.UserMessage("q")}, opts...)
+		rerr = e
+		if e == nil {
+			for i := 0; i < 4; i++ {
+				if _, e := sr.Recv(); e != nil {
+					break
+				}
+			}
+			sr.Close()
+		}
+	} else {
+		_, rerr = r.Invoke(ctx, []*schema.Message{schema.UserMessage("q")}, opts...)
+	}
+	vassert(rerr == nil, "run with well-addressed component options succeeds")
+	gotA, gotB := 0, 0
+	for _, x := range rec {
+		vassert(x.val == v, "the option arrives unchanged")
+		if x.node == "ma" {
+			gotA++
+		} else {
+			gotB++
+		}
+	}
+	vassert(gotA == wantA && gotB == wantB, "a component option reaches exactly the chat-model nodes it addresses, also when several designated options are derived from one base option")
+	vassert(lamSeen == 0, "a chat-model option never reaches a node of another component type")
 }
